@@ -1620,11 +1620,21 @@ impl<'arena> PrettyFormatter<'arena> {
     /// A comment before a constructor argument must not touch the constructor
     /// name: `-` and `'` continue an identifier, so `+C-- c` would lex as a name.
     fn constructor_comment_gap(&self, argument: EntityId) -> RcDoc<'arena> {
-        if self.arena.trivia.leading_comments(argument).is_empty() {
-            RcDoc::nil()
-        } else {
-            RcDoc::space()
-        }
+        // The argument's own group may be elided, so its first comment can
+        // belong to a singleton group nested inside it.
+        let commented = std::iter::successors(Some(argument), |entity| match entity {
+            | EntityId::Term(term) => match &self.arena.terms[term] {
+                | Term::Paren(Paren(terms)) => terms.first().map(|term| (*term).into()),
+                | _ => None,
+            },
+            | EntityId::Pat(pattern) => match &self.arena.pats[pattern] {
+                | Pattern::Paren(Paren(patterns)) => patterns.first().map(|pattern| (*pattern).into()),
+                | _ => None,
+            },
+            | _ => None,
+        })
+        .any(|entity| !self.arena.trivia.leading_comments(entity).is_empty());
+        if commented { RcDoc::space() } else { RcDoc::nil() }
     }
 
     fn term_constructor_argument(&self, body: TermId) -> RcDoc<'arena> {
